@@ -10,6 +10,7 @@ because of the latch agent's `fix:` commits (see `known_findings.d/C18.json`); f
 them the statements were false, see the `…_superseded_witness` examples at the end.
 -/
 import RtcModel.Lemmas.Latch
+import RtcModel.Lemmas.LatchRace
 import RtcModel.LatchSpec
 
 namespace RtcModel.Theorems.C18
@@ -532,6 +533,63 @@ example (a : Addr) (m : Nat) (tcp : Bool) : Inv (enableLatch (init a m tcp)) [] 
   subst hp; simp
 
 example : (run (enableLatch (init ⟨0, 0⟩ 3 false)) [.pkt ⟨1, 5001⟩ (.rtp 7 1 0 false)]).remote = ⟨1, 5001⟩ := by decide
+
+/-! ### An API call racing with `receive`
+
+`RtcModel.LatchRace`: the receive thread and the API thread advance from yield point to yield point
+in any order (a schedule is any `List Bool`); the probation mutex excludes the two critical sections;
+the unlocked fast-path test of `rtp_latched` may observe any intermediate state. -/
+
+open RtcModel.LatchRace in
+/-- **latch_api_serializable**: for every initial state with latching enabled, every RTP packet,
+each of the three latch API calls (`reset_latch`, signaling retarget, selected-pair update) and
+EVERY schedule that lets both threads finish, the final state is the state reached by running the
+two calls one after the other in one of the two orders — so every sequential theorem above
+(stickiness, legitimacy of moves, commit) also holds when the API call comes from another task
+while a packet is being received. (False before the lock-discipline `fix:`; the failing schedules
+were executed on the real code, see `known_findings.d/C18.json`.) -/
+theorem latch_api_serializable (s0 : St) (a : Addr) (ssrc seq ts : Nat) (m : Bool) (api : Op) (A : Crit)
+    (hA : apiCrit api = some A) (hon : s0.latchOn = true) (sched : List Bool)
+    (hr : rDone (runSched (recvCrit a ssrc seq ts m) A ⟨s0, .start, .start⟩ sched).r = true)
+    (ha : aDone (runSched (recvCrit a ssrc seq ts m) A ⟨s0, .start, .start⟩ sched).a = true) :
+    (runSched (recvCrit a ssrc seq ts m) A ⟨s0, .start, .start⟩ sched).st
+        = step (step s0 (.pkt a (.rtp ssrc seq ts m))) api ∨
+    (runSched (recvCrit a ssrc seq ts m) A ⟨s0, .start, .start⟩ sched).st
+        = step (step s0 api) (.pkt a (.rtp ssrc seq ts m)) := by
+  have hrecv : ∀ t : St, t.latchOn = true →
+      (recvCrit a ssrc seq ts m).full t = receive t a (.rtp ssrc seq ts m) := by
+    intro t ht; simp [recvCrit, receive, adopt_on t a ht]
+  cases api <;> simp [apiCrit] at hA <;> subst hA
+  · -- reset_latch
+    have h := reach_done _ _ (facts_reset a ssrc seq ts m) s0 _
+      (reach_run _ _ (facts_reset a ssrc seq ts m) s0 sched _ (reach_init _ _ s0)) hr ha
+    rw [hrecv s0 hon, hrecv _ (by simp [resetCrit, resetLatch, hon])] at h
+    simpa [step, resetCrit] using h
+  · -- signaling retarget
+    rename_i x
+    have h := reach_done _ _ (facts_sig a ssrc seq ts m x) s0 _
+      (reach_run _ _ (facts_sig a ssrc seq ts m x) s0 sched _ (reach_init _ _ s0)) hr ha
+    rw [hrecv s0 hon, hrecv _ (by simp [sigCrit, setFromSignaling, resetLatch, hon])] at h
+    simpa [step, sigCrit] using h
+  · -- selected-pair update
+    rename_i x
+    have h := reach_done _ _ (facts_pair a ssrc seq ts m x) s0 _
+      (reach_run _ _ (facts_pair a ssrc seq ts m x) s0 sched _ (reach_init _ _ s0)) hr ha
+    have hp : (setFromPair s0 x).latchOn = true := by unfold setFromPair; split <;> simp [hon]
+    rw [hrecv s0 hon, hrecv _ (by simpa [pairCrit] using hp)] at h
+    simpa [step, pairCrit] using h
+
+open RtcModel.LatchRace in
+/-- non-vacuity: a schedule in which the retarget overtakes a committing packet between its unlocked
+test and its critical section finishes, and the outcome is the api-first order (which differs from
+the receive-first order) -/
+example :
+    let s0 := run (init ⟨9, 5009⟩ 6 false) [.ssrc 7, .enable]
+    let y := runSched (recvCrit ⟨1, 5001⟩ 7 10 10 true) (sigCrit ⟨4, 5004⟩) ⟨s0, .start, .start⟩
+      [true, false, false, false, false, true, true, true, true]
+    rDone y.r = true ∧ aDone y.a = true ∧
+    y.st = step (step s0 (.sig ⟨4, 5004⟩)) (.pkt ⟨1, 5001⟩ (.rtp 7 10 10 true)) ∧
+    y.st ≠ step (step s0 (.pkt ⟨1, 5001⟩ (.rtp 7 10 10 true))) (.sig ⟨4, 5004⟩) := by decide
 
 /-! ### Superseded code (kept as documentation of what the three round-2 fixes changed)
 
